@@ -158,6 +158,7 @@ def extra(ctx, args):
                     return pf, "skipped", "patch no longer applies"
                 env = dict(os.environ)
                 env["OSU_VERIF_NO_EVIDENCE"] = "1"
+                env.setdefault("OSU_VERIF_TIME_LIMIT", "150")
                 r = subprocess.run([sys.executable, "-B", "-m", "osuverif.main", ctx.pid, "--root", tmp, "--tier", "quick"], cwd=here,
                                    capture_output=True, text=True, env=env, timeout=900)
                 # a refactoring recorded (meta.json, DESIGN 8e) as one the rules give no verdict on may answer exit 2; a VIOLATION line
